@@ -19,3 +19,5 @@ PROPS = {
     "C01": dict(level="exploration", steps=simple("^TestC01"), assumptions=TRUST),
     "C13": dict(level="exploration", steps=simple("^TestC13", shards_thorough=4), assumptions=TRUST),
 }
+PROPS["C02"] = dict(level="exploration", steps=simple("^TestC02"), assumptions=TRUST)
+PROPS["C09"] = dict(level="exploration", steps=simple("^(TestC09|TestRefGolden)"), assumptions=TRUST)
